@@ -223,9 +223,44 @@ def run(ck):
                 if prog is not None:
                     cases.append((len(cases), f"enc_replay_diag {enc} (run_trace ({prog}) {trace_to_coq(res['trace'])} 0)", job, res, tag))
         # 3. cold start: a fault during the first-use initialisation of the globals
-        nfault = 60 if thorough else 16
+        nfault = 140 if thorough else 24
         procs = []
         os.makedirs(RUN, exist_ok=True)
+        # what the process does AFTER a faulted first use: whatever the library caches at first use (kernel-feature probes, the
+        # procfs handle, sysctl values) must not be poisoned by one transient failure -- the same lookups answer as in a
+        # process whose warm-up was not disturbed
+        probes = [{"id": 1, "tree": TREE, "op": {"k": "resolve", "path": H("l/../b/f")}, "trace": False},
+                  {"id": 2, "tree": TREE, "op": {"k": "reopen", "path": H("file"), "flags": O["RDONLY"]}, "trace": False},
+                  {"id": 3, "tree": TREE, "op": {"k": "mkdir_all", "path": H("a/x/y"), "mode": 0o755}, "trace": False},
+                  {"id": 4, "tree": TREE, "op": {"k": "rename", "src": H("a/b/f"), "dst": H("file"), "flags": 1}, "trace": False},
+                  {"id": 5, "tree": TREE, "op": {"k": "rename", "src": H("a/b/f"), "dst": H("file"), "flags": 2}, "trace": False},
+                  {"id": 6, "op": {"k": "proc_readlink", "base": "self", "path": H("exe")}, "trace": False},
+                  {"id": 7, "tree": TREE, "op": {"k": "readlink", "path": H("esc")}, "trace": False}]
+        probe_text = "".join(json.dumps(j) + "\n" for j in probes)
+
+        def pclass(r):
+            if "err" in r:
+                return ("err", r["err"]["kind"], r["err"]["errno"])
+            if "panic" in r:
+                return ("panic",)
+            return ("ok",) + (("bytes", r["bytes"]) if "bytes" in r else ())
+        jf0 = os.path.join(RUN, f"c10cold.{os.getpid()}.{tag}.base.jobs")
+        open(jf0, "w").write(probe_text)
+        subprocess.run([DRIVER] + (["--deny", ",".join(deny)] if deny else []) + [jf0, jf0 + ".out"], stdout=subprocess.DEVNULL,
+                       stderr=subprocess.DEVNULL, env=ENV, timeout=120)
+        probe_base = {}
+        try:
+            for line in open(jf0 + ".out"):
+                rec = json.loads(line)
+                if rec.get("id") != "warmup":
+                    probe_base[rec["id"]] = pclass(rec.get("res", {}))
+        except OSError:
+            pass
+        for f_ in (jf0, jf0 + ".out"):
+            try:
+                os.remove(f_)
+            except OSError:
+                pass
         plan = []
         for at in range(nfault):
             for en in ((24, 5, 13) if thorough else (rng.choice(CATALOGUE),)):
@@ -236,7 +271,7 @@ def run(ck):
             if True:
                 jf = os.path.join(RUN, f"c10cold.{os.getpid()}.{tag}.{at}.{en}{sticky.replace(':', '')}.jobs")
                 of = jf + ".out"
-                open(jf, "w").write("")
+                open(jf, "w").write("" if sticky else probe_text)
                 cmd = [DRIVER] + (["--deny", ",".join(deny)] if deny else []) + ["--warm-fault", f"{at}:{en}{sticky}", jf, of]
                 procs.append((at, en, jf, of, subprocess.Popen(cmd, stdout=subprocess.DEVNULL, stderr=subprocess.DEVNULL, env=ENV)))
             if len(procs) >= 16 or pi == len(plan) - 1:
@@ -246,8 +281,13 @@ def run(ck):
                     except subprocess.TimeoutExpired:
                         p.kill()
                         ck.violation("C10: cold start with a fault at call %d (errno %d) did not finish" % (at2, en2), {"deny": tag})
+                    after = {}
                     try:
-                        w = json.loads(open(of).readline())
+                        lines = open(of).read().splitlines()
+                        w = json.loads(lines[0])
+                        for line in lines[1:]:
+                            rec = json.loads(line)
+                            after[rec["id"]] = pclass(rec.get("res", {}))
                     except Exception:
                         w = None
                     for f_ in (jf, of):
@@ -259,6 +299,22 @@ def run(ck):
                         ck.violation("C10: process died during cold start with a fault at call %d (errno %d)" % (at2, en2), {"deny": tag})
                         continue
                     stats["cold_runs"] += 1
+                    if after and probe_base and "panic" not in w.get("res", {}):
+                        stats["cold_probe_runs"] = stats.get("cold_probe_runs", 0) + 1
+                        for pid_, want in probe_base.items():
+                            got_ = after.get(pid_)
+                            if got_ != want and got_ is not None and got_[0] == "err":
+                                # fail-closed degradation (e.g. ENOSYS from the statx of the procfs handle's mount id at first use is
+                                # tolerated as "no mount ids", after which every verified lookup fails with EXDEV): every later
+                                # operation still "returns an error"; not what C10 is about -- counted, not reported
+                                stats["degraded_after_cold_fault"] = stats.get("degraded_after_cold_fault", 0) + 1
+                                continue
+                            if got_ != want:
+                                ck.violation("C10: after one fault during first-use initialisation, a later operation of the same process panics or reports a "
+                                             "success that differs from an undisturbed process' (state cached at first use was poisoned)",
+                                             {"deny": tag, "fault_at": at2, "errno": en2, "faulted_call": (w.get("trace") or [{}] * (at2 + 1))[at2].get("c") if len(w.get("trace") or []) > at2 else None,
+                                              "operation": J.describe({"op": probes[pid_ - 1]["op"]}), "undisturbed": want, "after_the_fault": after.get(pid_)})
+                                break
                     if "panic" in w.get("res", {}):
                         kf = classify_panic(ck, w["res"]["panic"], w.get("trace"))
                         if kf:
@@ -302,6 +358,8 @@ def run(ck):
         "known_panics_seen": stats["panics_known"],
         "eagain_sequence_runs": stats["eagain_runs"],
         "cold_start_runs": stats["cold_runs"],
+        "cold_start_runs_followed_by_probe_operations": stats.get("cold_probe_runs", 0),
+        "later_operations_failing_closed_after_a_cold_start_fault": stats.get("degraded_after_cold_fault", 0),
         "traces_validated_against_impl": stats["t1_ok"],
         "t1_mismatches": stats["t1_bad"],
         "by_errno": stats["by_errno"],
